@@ -18,7 +18,8 @@ three record disciplines, dictionary, union) and all serde value kinds, at any n
   `UnknownVariant` placeholder and the first such supports it — repo fix 837fa53, `default_first_real`; before the
   fix it had to be variant 0), and unions have ≤ 128 variants.  Since repo fix fe68100 a default is one counted ROW of
   that variant, and a `None` of a `FixedSizeList(_, m)` (size 1) sends `m` of them: `serialize_default` is supported by
-  a fixed-size list only when no union is reachable by defaults below it (`noDefUF`; see `default_fsl_union_refused`);
+  a fixed-size list of size `m > 1` only when no union is reachable by defaults below it (`noDefUF`; see
+  `default_fsl_union_refused`);
 * the hypotheses of R2: `WFB`, `Safe`, `Shape`, `noRaw`.
 
 Corollaries: `push_err_iff`, `push_err_sound` (the error-position refinement C18 needs: an error is never spurious),
